@@ -1,5 +1,6 @@
 import ReplicatProofs.Lemmas.RepoExact
 import ReplicatProofs.Lemmas.Format
+import ReplicatProofs.Lemmas.LocalClean
 /-!
 # C08 — garbage collection is complete and confined to the caller's own data
 
@@ -76,7 +77,7 @@ theorem clean_exact (enc : Bool) (u : User) (s : Store) (h : Consistent enc s) (
 
 /-- names that are not the caller's: the config, everything outside the two areas, and — in an encrypted repository — the
 chunk and snapshot objects of every other key family -/
-def foreign (enc : Bool) (u : User) : Name → Bool
+def foreign (enc : Bool) (u : User) : Repo.Name → Bool
   | .config => true
   | .other _ => true
   | .chunk f _ => enc && f != u.fam
@@ -84,7 +85,7 @@ def foreign (enc : Bool) (u : User) : Name → Bool
 
 /-- **Frame.**  delete and clean (successful or refused) leave every foreign object exactly as it was. -/
 theorem gc_frame (enc : Bool) (u : User) (s : Store) (op : Op) (hop : (∃ sids, op = .delete u sids) ∨ op = .clean u)
-    (hwf : WF s) (n : Name) (hn : foreign enc u n = true) : get (step enc s op) n = get s n := by
+    (hwf : WF s) (n : Repo.Name) (hn : foreign enc u n = true) : get (step enc s op) n = get s n := by
   rcases hop with ⟨sids, rfl⟩ | rfl
   · simp only [step]
     split
@@ -168,6 +169,105 @@ theorem location_injective (name tag name' tag' : Str) (h1 : name.all isHex = tr
   injection a with a1 a2
   exact ⟨a1.symm, a2.symm⟩
 
+/-! ## the local backend: its post-deletion clean-up walks the WHOLE repository directory
+
+`gc_frame` speaks about the object map.  On `replicat.backends.local.Local` a successful `clean` that deleted something also runs
+`Local.clean()`, a walk over everything below the repository directory — the user's own files next to `data/` and `snapshots/`
+included.  `ReplicatModel/LocalClean.lean` models the walk (`_find_deletable` flags, one `rmdir` per flagged entry, `rmdir` of a
+non-empty directory fails); the three facts it relies on — nothing reachable from `Local.clean` can remove or rewrite a file, a
+non-directory is only ever reported `False` — are read from the source on every run (`Gen.localCleanFileRemovers`,
+`Gen.localCleanDirRemovers`, `Gen.localCleanNonDirFlags`) and discharged here by `decide`. -/
+section localBackend
+open Replicat.LocalFS Replicat.LocalClean
+
+/-- **The clean-up never removes or changes a file**: with the code as it is NOW, `Local.clean()` succeeds on every directory
+tree (no `ENOTEMPTY`: children are removed before their parents), the table of files is the same afterwards, hence so is the
+object map the directory denotes (`FS.abs`) — in both areas and outside them, whatever the names look like. -/
+theorem local_clean_keeps_files (fs : FS) :
+    ∃ fs', LocalClean.clean fs = .ok fs' ∧ fs'.files = fs.files ∧ ∀ n, fs'.abs n = fs.abs n := by
+  refine ⟨_, clean_eq fs (by decide), rfl, fun n => rfl⟩
+
+/-- **It removes exactly the directories without a file below them** (that is its purpose: the fan-out directories emptied by
+the deletions; empty directories of the user go too — a directory is not an object), never the repository directory itself. -/
+theorem local_clean_removes_exactly_fileless_dirs (fs fs' : FS) (h : LocalClean.clean fs = .ok fs') (d : LocalFS.Path) :
+    d ∈ fs'.dirs ↔ d ∈ fs.dirs ∧ (d = [] ∨ hasFileBelow fs d = true) := by
+  rw [clean_eq fs (by decide)] at h
+  injection h with h
+  subst h
+  simp only [List.mem_filter, decide_eq_true_eq, mem_plan, not_and, Bool.not_eq_false]
+  constructor
+  · rintro ⟨h1, h2⟩
+    refine ⟨h1, ?_⟩
+    by_cases e : d = []
+    · exact Or.inl e
+    · exact Or.inr (h2 h1 e)
+  · rintro ⟨h1, h2⟩
+    refine ⟨h1, fun _ hne => ?_⟩
+    rcases h2 with e | e
+    · exact absurd e hne
+    · exact e
+
+/-- every directory on the way to a file stays: a foreign object remains reachable under its name -/
+theorem local_clean_keeps_ancestors (fs fs' : FS) (h : LocalClean.clean fs = .ok fs') (p : LocalFS.Path) (hp : fs.isFile p = true)
+    (a : LocalFS.Path) (ha : a ∈ ancestors p) (hd : a ∈ fs.dirs) : a ∈ fs'.dirs := by
+  rw [local_clean_removes_exactly_fileless_dirs fs fs' h a]
+  refine ⟨hd, Or.inr ?_⟩
+  obtain ⟨_, hpre, hne⟩ := (mem_ancestors a p).mp ha
+  have hlen : a.length < p.length := by
+    rcases Nat.lt_or_ge a.length p.length with hl | hl
+    · exact hl
+    · exact absurd (hpre.eq_of_length_le hl) hne
+  simp only [FS.isFile, FS.get, Option.isSome_iff_exists] at hp
+  obtain ⟨b, hb⟩ := hp
+  simp only [hasFileBelow, List.any_eq_true]
+  refine ⟨(p, b), alookup_mem _ _ _ hb, ?_⟩
+  simp only [below, Bool.and_eq_true, decide_eq_true_eq]
+  exact ⟨List.isPrefixOf_iff_prefix.mpr hpre, hlen⟩
+
+/-- a second clean-up finds nothing to do -/
+theorem local_clean_idempotent (fs fs' : FS) (h : LocalClean.clean fs = .ok fs') : LocalClean.clean fs' = .ok fs' := by
+  have hfiles : fs'.files = fs.files := by
+    rw [clean_eq fs (by decide)] at h
+    injection h with h
+    subst h
+    rfl
+  rw [clean_eq fs' (by decide)]
+  congr 1
+  have : fs'.dirs.filter (fun p => p ∉ plan fs') = fs'.dirs := by
+    apply List.filter_eq_self.mpr
+    intro d hd
+    simp only [decide_eq_true_eq, mem_plan, not_and, Bool.not_eq_false]
+    intro _ hne
+    have := (local_clean_removes_exactly_fileless_dirs fs fs' h d).mp hd
+    rcases this.2 with e | e
+    · exact absurd e hne
+    · simpa [hasFileBelow, hfiles] using e
+  cases fs' with
+  | mk f d => simp only at this ⊢; rw [this]
+
+/-- **The order in which `os.scandir` reports entries does not matter**: every order of the file-less directories in which no
+directory precedes one below it — all the recursive generator can produce — has the result of the model's own order. -/
+theorem local_clean_scan_order_irrelevant (fs : FS) (l : List LocalFS.Path) (hpo : PostOrder fs l) (hall : ∀ d, d ∈ l ↔ d ∈ plan fs) :
+    runPlan fs l = runPlan fs (plan fs) := by
+  rw [runPlan_postorder l fs hpo, runPlan_postorder _ fs (plan_postorder fs)]
+  congr 2
+  apply List.filter_congr
+  intro d _
+  simp [hall d]
+
+/-- **Frame on the directory.**  A destructive command on the local backend = `Local.delete` of the objects it chose (all of
+them inside the two areas, by `gc_frame` / `delete_only_requested`), then — only if there was one — the clean-up.  It succeeds, and
+every path it did not delete holds the same bytes afterwards: `exports/2024/report.tmp`, `data2/x`, `snapshots.bak/y`, `.tmp`. -/
+theorem local_gc_frame (fs : FS) (dels : List LocalFS.Path) (q : LocalFS.Path) (hq : q ∉ dels) :
+    ∃ fs', gcOnLocal fs dels = .ok fs' ∧ fs'.get q = fs.get q := by
+  unfold gcOnLocal
+  split
+  · exact ⟨fs, rfl, rfl⟩
+  · refine ⟨_, clean_eq _ (by decide), ?_⟩
+    exact get_foldl_erase dels fs q hq
+
+end localBackend
+
 /-! ## non-vacuity and boundary witnesses -/
 
 /-- orphans (chunk 1/77, left by an interrupted snapshot), two families, a stray object: clean by family 1 removes exactly the
@@ -184,6 +284,25 @@ example : (match parseChunkLocation (getChunkLocation "00ff".toList "ab".toList)
   decide +kernel
 
 example : (parseChunkLocation (getChunkLocation "00ff".toList "abcdef".toList)).toOption = some ("00ff".toList, "abcdef".toList) := by
+  decide +kernel
+
+/-- the walk on a small directory: `data/ab/cd` lost its last chunk and goes with `data/ab`; `data/ef` still holds one;
+the user's `exports/r.tmp`, the dot-file `.tmp` and `data2/x` stay, the user's empty `old` directory goes -/
+example :
+    let fs : LocalFS.FS := ⟨[(["data".toList, "ef".toList, "c1".toList], [1]), (["exports".toList, "r.tmp".toList], [2]), ([".tmp".toList], []),
+        (["data2".toList, "x".toList], [3])],
+      [["data".toList], ["data".toList, "ab".toList], ["data".toList, "ab".toList, "cd".toList], ["data".toList, "ef".toList], ["exports".toList],
+        ["data2".toList], ["old".toList]]⟩
+    (match LocalClean.clean fs with
+      | .ok fs' => decide (fs'.files = fs.files ∧ fs'.dirs = [["data".toList], ["data".toList, "ef".toList], ["exports".toList], ["data2".toList]])
+      | _ => false) = true := by
+  decide +kernel
+
+/-- `rmdir` in the wrong order fails (ENOTEMPTY): the post-order of the walk is needed -/
+example :
+    let fs : LocalFS.FS := ⟨[], [["a".toList], ["a".toList, "b".toList]]⟩
+    LocalClean.runPlan fs [["a".toList], ["a".toList, "b".toList]] = .error .notEmpty ∧
+    LocalClean.runPlan fs [["a".toList, "b".toList], ["a".toList]] = .ok ⟨[], []⟩ := by
   decide +kernel
 
 end Replicat.C08
